@@ -1,6 +1,7 @@
 import Cpppo.Proofs.Dotdict
 import Cpppo.Proofs.DotdictText
 import Cpppo.Proofs.DotdictKeys
+import Cpppo.Proofs.DotdictHeap
 import Cpppo.Generated.Tables
 
 /-!
@@ -366,9 +367,8 @@ example : KeysOK (goodName liveCfg) liveCfg (chain true "a.x..l[1].y".toList).se
 example : CopyKey liveCfg "abc".toList = true := by decide +kernel
 
 /-- **`copy.copy` / `copy.deepcopy` reproduce the tree** (repaired `__copy__`; both rebuild every
-level through `__setitem__`).  The result is a *value*: in this model nothing done to it can show in
-the original, which is what the two-slot correspondence checks against the code after every
-operation.  That this is false for the old `__copy__` needs object identities: see below. -/
+level through `__setitem__`).  In the value model the result shares nothing with the original by
+construction; the statement with object identities is `copy_shares_nothing` below. -/
 theorem copy_faithful (cfg : Cfg) (t : Tree) (h : wfT (CopyKey cfg) t = true) : copyT cfg t = .ok t :=
   copyT_ok cfg t h
 
@@ -389,6 +389,26 @@ theorem copyOld_shares_list_elements :
      (assign h1 c [.key "a".toList, .idx 0] "x".toList 5).map (fun h2 => (read 8 h2 d, read 8 h2 c))
        = some (d0, .node [("a".toList, .list [.node [("x".toList, .leaf 5)]])])) := by
   decide +kernel
+
+open Heap in
+/-- **Copies are structurally independent** (repaired `__copy__`, with object identities): in every
+closed heap, for every object `d` (a dotdict of any shape, with lists of dotdicts, nested lists, …),
+`c = copy.copy( d )` reads exactly as `d` does, and after any assignment made through `c` — at any path
+through levels and list elements — `d` still reads as before.  (`__deepcopy__` rebuilds the same cells:
+every mapping and every list is new, ints are shared.) -/
+theorem copy_shares_nothing (f : Nat) (h : Heap) (d : Nat) (hc : Closed h) (hd : d < h.length)
+    (hf : fits f h d = true) :
+    read f (copyObj true f h d).1 (copyObj true f h d).2 = read f h d ∧
+    ∀ (path : List Step) (k : Name) (v : Int) (h2 : Heap),
+      assign (copyObj true f h d).1 (copyObj true f h d).2 path k v = some h2 →
+      ∀ g, read g h2 d = read g h d :=
+  copy_independent f h d hc hd hf
+
+open Heap in
+/-- the hypotheses hold for a dotdict built in an empty heap (and the copy is not the same object) -/
+example : (let (h0, d) := alloc tIter []
+    closedB h0 = true ∧ d < h0.length ∧ fits 8 h0 d = true ∧ (copyObj true 8 h0 d).2 ≠ d ∧
+    read 8 h0 d = tIter) := by decide +kernel
 
 /-! ## tie to the extracted constants -/
 
